@@ -151,3 +151,7 @@ func VerifDebugf(format string, args ...interface{}) {
 	}
 }
 func verifDebugf(format string, args ...interface{}) { VerifDebugf(format, args...) }
+
+// VerifProtect/VerifUnprotect: executor-only write barrier (C20 frame check).
+func VerifProtect(x interface{}) {}
+func VerifUnprotect()            {}
